@@ -7,6 +7,10 @@ ROOT = Path('/verif')
 P = {
  'C01': ('Emissions', 'Lean theorems over ℝ on a generic-scalar model of the inventory assembly (windowing, LTO mode zeroing, APU/GSE parts, totals, NOx/SOx splits, life-cycle term) + correspondence of the Float model with compute_emissions on generated flights/configurations + the 17 balance clauses on the implementation output',
          'EI arrays enter the model as inputs (C12 decides the EI kernels); IEEE rounding not modelled (rtol 1e-9); option combinations that raise belong to C11'),
+ 'C02': ('Container+Builder', 'Lean models of the growable point container (np.resize semantics, make_point, slicing) and of the legacy builder (altitude schedule with clamps/refusals, starting mass, level-change and cruise folds over a performance oracle, mass iteration, np.interp resampling); theorems: container refines the list of appended points across every expansion, mass−fuel constant, monotone bookkeeping, first point, positions on track, altitude schedule, unflyable missions rejected, resampling identity/linearity; correspondence with LegacyBuilder.fly on generated missions, airports and performance tables (bitwise on returned flights)',
+         'performance model and ground track enter the model as lookup tables recorded from the implementation during the compared flight (C06/C15 decide those); weather-on flights covered by clauses only; "all values finite" is a clause on the implementation'),
+ 'C17': ('Builder', 'Lean state machine of Builder.fly (context construction → run → finally delete; attribute routing) and of mass iteration over an arbitrary residual oracle; theorems: result independent of builder state and of any history of prior successful/failing flights, post-state clean, constructor failures surface the original reason, mass iteration returns within tolerance or reports non-convergence; correspondence on sequences of valid and failing missions on one builder vs fresh builders',
+         'one open finding (caller-supplied starting mass never sets total_fuel_mass ⇒ internal TypeError) accepted in as-is or intended form'),
  'C03': ('StoreCodec', 'Lean model of the NetCDF codec (encode/decode per dimension case with the file species list, optional/required handling, convert_in, layouts, create_associated as map, digests); theorems decode∘encode = id for every field-set shape/species subset/unset pattern under the explicit `fits` predicate, layout independence, reopen identity, slot injectivity on the regenerated Species order, digest mismatch detection (MD5 injectivity as hypothesis); correspondence with real stores on generated registered field sets',
          'netCDF4/HDF5 as a typed array store with fill values; MD5 as an injective oracle (hypothesis); four open findings accepted in as-is form (unset optional string reads empty, None species field, species dimension fixed by first trajectory, digest text not injective)'),
  'C12': ('EI', 'generic-scalar Lean transcription of the cited equations (ISA, FFM2 SLS, BFFM2 NOx + speciation, BFFM2 HC/CO, SOx, FOA3 / fuel-flow PMvol, SCOPE11, MEEM); theorems over ℝ (pressure/altitude inverses, continuity at the tropopause, linear scaling, clamping, sulfur conservation, non-negativity, thrust category totality/monotonicity); Float model vs numpy implementation rtol 1e-9 over the whole stated input range',
@@ -41,9 +45,7 @@ P = {
          'switch points finer than a source line not exhibited; CPython threading.Lock trusted'),
 }
 PENDING = {
- 'C02': 'builder (trajectory container/legacy builder) model still under construction in this session; not yet claimed',
  'C06': 'performance table model still under construction in this session; not yet claimed',
- 'C17': 'builder state-machine model still under construction in this session; not yet claimed',
 }
 import sys
 done = [p for p in P if (ROOT / 'harness' / f'{p.lower()}.py').exists() and (ROOT / 'lean' / 'AeicProofs' / 'Properties' / f'{p}.lean').exists()]
